@@ -9,12 +9,21 @@ node, `Model.device_configurations`, the output of the internal checker
 `_multi_device._check_device_configurations` (as violation kinds, in order) and the serialized
 `NodeProto.device_configurations` fields of every model.
 
+The driver also returns, per operation, whether the hypothesis `Pre` of `C19_step` held and the
+value of the Lean predicates `DevOK` / `Named` on the model world; the harness compares them with
+its own evaluation of the same facts on the real objects (tie between the Lean statement and the
+Python oracle) and requires `Pre` for every operation of the strict stream.
+
 Oracle (independent of the model, on the real objects, after every operation): no spec targets a
-value outside its node's inputs/outputs; node configurations are registered on the node's model and
-the checker is silent (histories of the in-alphabet stream); serialized tensor_name /
-configuration_id are the *current* names; a detach drops exactly the specs whose target left the
-node; a raising call leaves every object unchanged and raises exactly for the invalid requests;
-a round trip / clone reproduces the annotations on the new objects.
+value outside its node's inputs/outputs; whenever `Pre` held along the history: DevOK holds, the
+internal checker reports at most "value with an empty name" and nothing when all sharded values are
+named, and serialization does not raise; serialized tensor_name / configuration_id are the *current*
+names; a detach drops exactly the specs whose target left the node and touches no other node; a
+raising call leaves every object unchanged and `shard` / `set_pipeline_stage` raise exactly for the
+invalid requests; a round trip / clone reproduces the annotations on the new objects.
+
+A third, oracle-only stream runs the same oracles on a model with an `If` node (two subgraphs that
+use outer-scope values) and a function (no Lean correspondence: the model has one flat graph).
 """
 from __future__ import annotations
 
@@ -25,12 +34,14 @@ import re
 from harness.common import Ctx, Part, lean_batch, pmap
 
 THEOREMS = [
-    "IrVerif.Device.C19_step_partial",
+    "IrVerif.Device.C19_step",
+    "IrVerif.Device.C19_history",
     "IrVerif.Device.C19_checker_silent",
     "IrVerif.Device.C19_checker_only_names",
     "IrVerif.Device.C19_drop",
     "IrVerif.Device.C19_reject_atomic",
     "IrVerif.Device.C19_names_current",
+    "IrVerif.Device.C19_serializable",
 ]
 ASSUMPTIONS = [
     "one flat graph per model: subgraphs, functions, graph outputs and initializers are not modelled or generated",
@@ -367,12 +378,20 @@ def oracle_nodangle(real: Real, part, hist_id, step, strict: bool):
                             {"history": hist_id, "step": step},
                         )
             msgs = real.md._check_device_configurations(m)
-            if msgs:
+            # an unnamed sharded value is legitimately reported ("cannot be serialized"); anything else is not
+            bad = [x for x in msgs if _kind(x) != "valEmptyName"]
+            if not bad and msgs and all_named(real):
+                bad = msgs
+            if bad:
                 part.fail(
-                    f"checker-not-silent after {step['op']}: {_kind(msgs[0])}",
-                    "the internal device-configuration check reports: " + msgs[0],
+                    f"checker-not-silent after {step['op']}: {_kind(bad[0])}",
+                    "the internal device-configuration check reports: " + bad[0],
                     {"history": hist_id, "step": step},
                 )
+
+
+def all_named(real: Real) -> bool:
+    return all(s.value is not None and s.value.name for n in real.nodes for nc in n.device_configurations for s in nc.sharding_specs)
 
 
 def oracle_names_current(real: Real, part, hist_id, step):
@@ -623,6 +642,8 @@ class Gen:
                 bad = r.randrange(5)
                 if bad == 0:
                     v = self.pick_value()  # most likely not an input/output of the node
+                    if strict and not real.values[v].name:
+                        v = r.choice(io)
                 elif bad == 1:
                     k = r.choice([0, -1, -5])
                 elif bad == 2:
@@ -719,33 +740,37 @@ def run_history(seed: int, strict: bool, length: int, part: Part, fixed_ops=None
         if res == "ok" and k in ("replaceInput", "resizeInputs", "resizeOutputs", "removeNode", "rename", "clone", "roundTrip", "removeCfg"):
             edited = True
         step_info = {"index": len(ops) - 1, "op": k, "args": op}
-        # ---- oracle
+        # ---- oracle (a history is abandoned after its first failure: the replay is the failing prefix)
+        nfail0 = len(part["failures"])
+        ops_snapshot = list(ops)
         if res == "raised" and before != after:
-            part.fail(f"reject-not-atomic {k}", "a raising call changed the IR", {"history": hist_id, "ops": ops, "step": step_info})
+            part.fail(f"reject-not-atomic {k}", "a raising call changed the IR", {"history": hist_id, "ops": ops_snapshot, "step": step_info})
         if should_raise is not None and should_raise != (res == "raised"):
             part.fail(
                 f"{k} {'accepted an invalid' if should_raise else 'rejected a valid'} request",
                 "validation outcome differs from the documented contract",
-                {"history": hist_id, "ops": ops, "step": step_info},
+                {"history": hist_id, "ops": ops_snapshot, "step": step_info},
             )
         if drop_node is not None and res == "ok":
             node = real.nodes[drop_node]
             exp = expected_after_drop(real, before_dev, node)
             if real.node_dev(node) != exp:
                 part.fail(f"drop-inexact {k}", "specs after a detach are not exactly those whose target is still on the node",
-                          {"history": hist_id, "ops": ops, "step": step_info, "expected": exp, "got": real.node_dev(node)})
+                          {"history": hist_id, "ops": ops_snapshot, "step": step_info, "expected": exp, "got": real.node_dev(node)})
             for i, (b, a) in enumerate(zip(before["nodes"], after["nodes"])):
                 if i != drop_node and b["d"] != a["d"]:
-                    part.fail(f"drop-touches-other-node {k}", "annotations of another node changed", {"history": hist_id, "ops": ops, "step": step_info})
+                    part.fail(f"drop-touches-other-node {k}", "annotations of another node changed", {"history": hist_id, "ops": ops_snapshot, "step": step_info})
         if k == "shardingOf" and res == "ok":
             node = real.nodes[op["n"]]
             exp = [s for _c, specs, _s in real.node_dev(node) for s in specs if s[0] == op["v"]]
             if out != exp:
-                part.fail("sharding_of", "sharding_of() differs from the specs targeting the value", {"history": hist_id, "ops": ops, "step": step_info})
+                part.fail("sharding_of", "sharding_of() differs from the specs targeting the value", {"history": hist_id, "ops": ops_snapshot, "step": step_info})
         if k in ("clone", "roundTrip") and res == "ok":
-            oracle_copy(real, part, hist_id, ops, step_info, op, strict and not gen.tainted)
-        oracle_nodangle(real, part, {"history": hist_id, "ops": ops}, step_info, strict and not gen.tainted)
-        oracle_names_current(real, part, {"history": hist_id, "ops": ops}, step_info)
+            oracle_copy(real, part, hist_id, ops_snapshot, step_info, op, strict and not gen.tainted)
+        oracle_nodangle(real, part, {"history": hist_id, "ops": ops_snapshot}, step_info, strict and not gen.tainted)
+        oracle_names_current(real, part, {"history": hist_id, "ops": ops_snapshot}, step_info)
+        if len(part["failures"]) > nfail0 and todo is None:
+            break
     return ops, steps, annotated and edited
 
 
@@ -783,8 +808,23 @@ def oracle_copy(real: Real, part, hist_id, ops, step_info, op, strict):
 # --------------------------------------------------------------------------- compare with the model
 
 
+def _lean(reqs):
+    """lean_batch, waiting while a concurrent `lake build` is relinking the driver executable."""
+    import time
+
+    from harness.common import Infra
+
+    for attempt in range(40):
+        try:
+            return lean_batch(reqs)
+        except (Infra, OSError):
+            if attempt == 39:
+                raise
+            time.sleep(3)
+
+
 def compare(ops, steps, part: Part, info):
-    out = lean_batch([{"m": "device.run", "ops": ops, "full": True}])[0]
+    out = _lean([{"m": "device.run", "ops": ops, "full": True}])[0]
     if "err" in out:
         part.disagree("model driver error", {"info": info, "ops": ops}, out, None)
         return
@@ -812,6 +852,8 @@ def compare(ops, steps, part: Part, info):
                 part.fail(f"checker-structural-error after in-alphabet {op['op']}", "the internal check reports a structural violation", case)
             if f["named"] and not f["silent"]:
                 part.fail(f"checker-not-silent after in-alphabet {op['op']}", "the internal check reports something although all sharded values are named", case)
+            if f["named"] and f["devok"] and any(mm["ser"] == "raised" for mm in st["state"]["models"]):
+                part.fail(f"serialization-raises after in-alphabet {op['op']}", "serialize_model raises although every sharded value is named", case)
         else:
             part.count("steps_outside_alphabet")
         if ms.get("res") != st["res"]:
@@ -844,6 +886,200 @@ def _worker(arg):
     return part
 
 
+# --------------------------------------------------------------------------- oracle-only stream: subgraphs + functions
+
+
+def _rich_model(ir):
+    F = ir.TensorType(ir.DataType.FLOAT)
+
+    def V(name, shape=None):
+        return ir.Value(name=name, shape=None if shape is None else ir.Shape(shape), type=F)
+
+    x, y, c, a = V("x", [2, 3]), V("y", None), V("cond", []), V("a", [2, "N"])
+    nA = ir.Node("", "Add", [x, y], outputs=[a], name="A")
+    t1 = V("t1", [2, 3])
+    nt = ir.Node("", "Relu", [a], outputs=[t1], name="T")
+    t2 = V("t2", None)
+    nt2 = ir.Node("", "Mul", [t1, x], outputs=[t2], name="T2")
+    then_g = ir.Graph([], [t2], nodes=[nt, nt2], name="then")
+    e1 = V("e1", [2, 3])
+    ne = ir.Node("", "Neg", [a], outputs=[e1], name="E")
+    else_g = ir.Graph([], [e1], nodes=[ne], name="else")
+    i1 = V("i1", [2, 3])
+    nIf = ir.Node("", "If", [c], [ir.AttrGraph("then_branch", then_g), ir.AttrGraph("else_branch", else_g)], outputs=[i1], name="If")
+    f1 = V("f1", [2, 3])
+    nF = ir.Node("custom", "F", [i1], outputs=[f1], name="callF")
+    g = ir.Graph([x, y, c], [f1], nodes=[nA, nIf, nF], opset_imports={"": 20, "custom": 1}, name="main")
+    fx, fm, fo = V("fx", None), V("fm", [4, 4, 4]), V("fo", None)
+    fn1 = ir.Node("", "Relu", [fx], outputs=[fm], name="F1")
+    fn2 = ir.Node("", "Neg", [fm], outputs=[fo], name="F2")
+    fg = ir.Graph([fx], [fo], nodes=[fn1, fn2], opset_imports={"": 20}, name="Fbody")
+    func = ir.Function("custom", "F", graph=fg, attributes=[])
+    return ir.Model(g, ir_version=11, functions=[func])
+
+
+def _rich_nodes(m):
+    ns = list(m.graph.all_nodes())
+    for f in m.functions.values():
+        ns += list(f.all_nodes())
+    return ns
+
+
+def _rich_summary(m):
+    """annotations by names: node name -> [(cfg name, stage, [(value name, devices, [(axis, shards)])])]"""
+    out = {}
+    for n in _rich_nodes(m):
+        out[n.name] = [
+            (nc.configuration.name if nc.configuration is not None else None, nc.pipeline_stage,
+             [(s.value.name if s.value is not None else None, tuple(s.device),
+               tuple((d.axis, d.simple_shardings[0].num_shards) for d in s.sharded_dims)) for s in nc.sharding_specs])
+            for nc in n.device_configurations
+        ]
+    return out
+
+
+def _rich_oracle(md, m, part, what, case):
+    reg = {id(c) for c in m.device_configurations}
+    for n in _rich_nodes(m):
+        io = {id(v) for v in list(n.inputs) + list(n.outputs) if v is not None}
+        for nc in n.device_configurations:
+            if nc.configuration is None or id(nc.configuration) not in reg:
+                part.fail(f"rich: unregistered-configuration after {what}", "node configuration not registered on its model (subgraph/function stream)", case)
+            for s in nc.sharding_specs:
+                if s.value is None or id(s.value) not in io:
+                    part.fail(f"rich: dangling-spec after {what}", "spec targets a value outside its node (subgraph/function stream)", case)
+    msgs = md._check_device_configurations(m)
+    if msgs:
+        part.fail(f"rich: checker-not-silent after {what}: {_kind(msgs[0])}", msgs[0], case)
+
+
+def run_rich(seed: int, length: int, part: Part):
+    """Oracle-only histories on a model with an If node (two subgraphs using outer-scope values) and a
+    function: annotation ops on inner/function nodes, renames, input replacement, cascade removal, clone and
+    round trip.  No model correspondence (the Lean model has one flat graph)."""
+    import onnx
+    import onnx_ir as ir
+    from onnx_ir import _multi_device as md
+    from onnx_ir import serde
+
+    r = random.Random(seed)
+    m = _rich_model(ir)
+    cfgs = [m.add_device_configuration("c0", num_devices=2), m.add_device_configuration("c1", num_devices=3)]
+    log = []
+    fresh = [0]
+    for _ in range(length):
+        nodes = _rich_nodes(m)
+        n = r.choice(nodes)
+        kind = r.choices(["shard", "stage", "rename", "replace", "cascade", "addcfg", "clone", "roundtrip", "grow"],
+                         [30, 6, 10, 12, 4, 4, 5, 6, 3])[0]
+        case = {"seed": seed, "log": log}
+        try:
+            if kind == "shard" and m.device_configurations:
+                io = [v for v in list(n.inputs) + list(n.outputs) if v is not None and v.name]
+                if not io:
+                    continue
+                v = r.choice(io)
+                rank = _rank(v)
+                axis = r.choice([-2, -1, 0, 1, 2]) if rank is None else (r.randrange(-rank, rank) if rank else 0)
+                cfg = r.choice(list(m.device_configurations))
+                log.append(("shard", n.name, v.name, cfg.name, axis))
+                n.shard(v, configuration=cfg, axis=axis, num_shards=r.choice([1, 2, 4]),
+                        device_indices=[r.randrange(cfg.num_devices) for _ in range(r.choice([0, 1, 2]))])
+            elif kind == "stage" and m.device_configurations:
+                cfg = r.choice(list(m.device_configurations))
+                log.append(("stage", n.name, cfg.name))
+                n.set_pipeline_stage(cfg, r.choice([0, 1, 2]))
+            elif kind == "rename":
+                vs = [v for v in list(n.inputs) + list(n.outputs) if v is not None]
+                if vs:
+                    fresh[0] += 1
+                    v = r.choice(vs)
+                    log.append(("rename", v.name, f"r{fresh[0]}"))
+                    v.name = f"r{fresh[0]}"
+            elif kind == "replace" and len(n.inputs) > 0:
+                # a value visible from the node: values of its own graph or of the main graph
+                pool = [v for k in (list(n.graph) if n.graph is not None else []) for v in k.outputs]
+                pool += list(m.graph.inputs) + [v for k in m.graph for v in k.outputs]
+                if n.graph is not None:
+                    pool += list(n.graph.inputs)
+                pool = [v for v in pool if v.name and v not in n.outputs]
+                i = r.randrange(len(n.inputs))
+                v = r.choice(pool + [None])
+                log.append(("replace", n.name, i, None if v is None else v.name))
+                def by_id(node):
+                    return [(id(nc.configuration), nc.pipeline_stage, [(id(sp.value), sp) for sp in nc.sharding_specs])
+                            for nc in node.device_configurations]
+
+                before = by_id(n)
+                n.replace_input_with(i, v)
+                ids = {id(x) for x in list(n.inputs) + list(n.outputs) if x is not None}
+                exp = [(c, st, [sp for sp in specs if sp[0] in ids]) for c, st, specs in before]
+                if by_id(n) != exp:
+                    part.fail("rich: drop-inexact replace_input_with", "specs after detach differ from those still on the node", case)
+            elif kind == "cascade" and m.device_configurations:
+                cfg = r.choice(list(m.device_configurations))
+                log.append(("cascade", cfg.name))
+                m.remove_device_configuration(cfg.name if r.random() < 0.5 else cfg, cascade=True)
+            elif kind == "addcfg":
+                fresh[0] += 1
+                log.append(("addcfg", f"k{fresh[0]}"))
+                m.add_device_configuration(f"k{fresh[0]}", num_devices=r.choice([1, 2, 4]))
+            elif kind == "clone":
+                log.append(("clone",))
+                before = _rich_summary(m)
+                try:
+                    m2 = m.clone()
+                except Exception:
+                    log.append(("clone-raised",))
+                    continue
+                if _rich_summary(m2) != before:
+                    part.fail("rich: clone changes annotations", "annotations of the clone differ (by names)", case)
+                src = {id(v) for k in _rich_nodes(m) for v in list(k.inputs) + list(k.outputs) if v is not None}
+                for k in _rich_nodes(m2):
+                    for nc in k.device_configurations:
+                        for sp in nc.sharding_specs:
+                            if id(sp.value) in src:
+                                part.fail("rich: clone-aliases-source-value", "a cloned spec targets a value of the source model", case)
+                _rich_oracle(md, m, part, "clone(source)", case)
+                m = m2
+            elif kind == "roundtrip":
+                log.append(("roundtrip",))
+                before = _rich_summary(m)
+                proto = serde.serialize_model(m)
+                p2 = onnx.ModelProto()
+                p2.ParseFromString(proto.SerializeToString())
+                m2 = serde.deserialize_model(p2)
+                if _rich_summary(m2) != before:
+                    part.fail("rich: round trip changes annotations", "annotations after serialize/deserialize differ (by names)", case)
+                m = m2
+            elif kind == "grow":
+                k = len(n.outputs)
+                log.append(("grow", n.name))
+                n.resize_outputs(k + 1)
+                fresh[0] += 1
+                n.outputs[k].name = f"g{fresh[0]}"
+                n.outputs[k].type = ir.TensorType(ir.DataType.FLOAT)
+        except ValueError:
+            log.append(("raised",))
+        part.count(f"rich_op={kind}")
+        _rich_oracle(md, m, part, kind, {"seed": seed, "log": list(log)})
+        if part["failures"]:
+            break
+    part.case(["rich", seed, log], nontrivial=len(log) > 3, stream="rich-oracle-only")
+
+
+def _rich_worker(arg):
+    logging.disable(logging.CRITICAL)
+    seed0, count, length = arg
+    part = Part()
+    for j in range(count):
+        try:
+            run_rich(seed0 + j, length, part)
+        except Exception as e:
+            part.fail(f"rich: harness-exception {type(e).__name__}", repr(e)[:300], {"seed": seed0 + j})
+    return part
+
+
 def run(ctx: Ctx) -> None:
     logging.disable(logging.CRITICAL)
     ctx.rule = (
@@ -865,6 +1101,11 @@ def run(ctx: Ctx) -> None:
     for i in range(0, n_wild, per):
         jobs.append((ctx.rng.randrange(1 << 40), min(per, n_wild - i), False, length))
     for part in pmap(_worker, jobs):
+        ctx.merge(part)
+    # oracle-only stream (subgraphs + functions; outside the flat Lean model)
+    n_rich = ctx.pick(160, 1600)
+    rjobs = [(ctx.rng.randrange(1 << 40), min(20, n_rich - i), ctx.pick(30, 45)) for i in range(0, n_rich, 20)]
+    for part in pmap(_rich_worker, rjobs):
         ctx.merge(part)
 
 
